@@ -2,6 +2,7 @@ package props
 
 import (
 	"fmt"
+	"github.com/remieven/ysgo/variable"
 	"strings"
 
 	"github.com/remieven/ysgo/verifharness/core"
@@ -40,6 +41,8 @@ func (c12) Thresholds(tier string) map[string]int64 {
 		"end-right-after-option-group":              200,
 		"end-after-empty-chosen-body":               100,
 		"extra-next-calls":                          20000,
+		"stops-nested-7-to-14-blocks-deep":          500,
+		"ends-followed-by-700-further-calls":        40,
 		"restore-after-end-revives":                 300,
 		"end-with-ysgo-statements-left=0":           500,
 		"stop-with-words-reported-the-end":          1000,
@@ -51,7 +54,7 @@ func (c12) Thresholds(tier string) map[string]int64 {
 }
 
 func (c12) Rule() string {
-	return "case = one generated program with a raised share of <<stop>> statements (at nesting depth 0-6, with statements after the stop in the same and in enclosing bodies) and of option groups that end a node (some with empty bodies); every enumerated path is driven to its end, then 10 further Next calls are made with arguments drawn from {0,1,-1,7,maxint,minint}. Oracle: each returns (nil,nil) without panicking and without any host-function, command or variable-store write event (recorded at the host boundary); finally a snapshot taken at the end is restored and the runner must run again exactly as the model does from that node entry. A second sub-workload writes the stop with extra words (<<stop now>>, <<stop {\"why\"}>>) nested 0-4 levels deep with statements after it at every level; nothing is predicted about such a command, but IF the runner reports the end, the end must be absorbing. A third sub-workload lets the end meet commands: (A) an asynchronous command (7 handler shapes, completion after 1-4 polls or only after the end was reported, with an error or nil) is the very last statement of the dialogue, nested 0-3 levels deep; (B) the game registered a command named stop (pending, failing, converted) and the script runs <<stop>>; (C) plain lines carry trailing <<if>> conditions (true, false, variables) with statements after them, and an option may carry a condition that is not a boolean; (D) a pending command in the middle of a body reports success by closing its channel. Nothing is predicted about when the end is reported; from the first (nil,nil) on, 14 further calls - during which everything still pending completes with its error - must report the end with no host event, handler invocation or store write. Non-trivial: the end was reached with statements left in the continuation (stop) or right after an option group. Distinct by hash of scripts+choices."
+	return "case = one generated program with a raised share of <<stop>> statements (at nesting depth 0-6, with statements after the stop in the same and in enclosing bodies) and of option groups that end a node (some with empty bodies); every enumerated path is driven to its end, then 10 further Next calls are made with arguments drawn from {0,1,-1,7,maxint,minint}. Oracle: each returns (nil,nil) without panicking and without any host-function, command or variable-store write event (recorded at the host boundary); finally a snapshot taken at the end is restored and the runner must run again exactly as the model does from that node entry. One case in four lets a host function panic in mid-node (string, number, struct or error value): nothing is predicted about that call, but if it reports the end the end must be absorbing. One end in sixty is followed by 700 further calls instead of 10, and one case in four also runs a <<stop>> nested 7-14 blocks deep (if bodies and chosen option bodies in turn, a line after every block). A second sub-workload writes the stop with extra words (<<stop now>>, <<stop {\"why\"}>>) nested 0-4 levels deep with statements after it at every level; nothing is predicted about such a command, but IF the runner reports the end, the end must be absorbing. A third sub-workload lets the end meet commands: (A) an asynchronous command (7 handler shapes, completion after 1-4 polls or only after the end was reported, with an error or nil) is the very last statement of the dialogue, nested 0-3 levels deep; (B) the game registered a command named stop (pending, failing, converted) and the script runs <<stop>>; (C) plain lines carry trailing <<if>> conditions (true, false, variables) with statements after them, and an option may carry a condition that is not a boolean; (D) a pending command in the middle of a body reports success by closing its channel. Nothing is predicted about when the end is reported; from the first (nil,nil) on, 14 further calls - during which everything still pending completes with its error - must report the end with no host event, handler invocation or store write. Non-trivial: the end was reached with statements left in the continuation (stop) or right after an option group. Distinct by hash of scripts+choices."
 }
 
 func (c12) Assumptions() []string {
@@ -76,6 +79,18 @@ func (p c12) Run(c *core.Ctx) {
 	p.stopWithWords(c)
 	if c.Failed() {
 		return
+	}
+	if c.Idx%4 == 0 {
+		p.hostPanics(c)
+		if c.Failed() {
+			return
+		}
+	}
+	if c.Idx%4 == 2 {
+		p.deepStop(c)
+		if c.Failed() {
+			return
+		}
 	}
 	p.endWithCommands(c)
 	if c.Failed() {
@@ -119,11 +134,18 @@ func (p c12) Run(c *core.Ctx) {
 				writesBefore, clearsBefore = pair.Rec.Writes, pair.Rec.Clears
 			}
 			logBefore := len(pair.RLog.E)
-			for i := 0; i < 10; i++ {
+			extra := 10
+			if c.R.Chance(1, 60) {
+				extra = 700 // a host that keeps polling a finished dialogue (a frame loop)
+				c.Feature("ends-followed-by-700-further-calls")
+			}
+			for i := 0; i < extra; i++ {
 				arg := extraArgs[c.R.Intn(len(extraArgs))]
 				got := pair.R.Once(arg)
 				c.Feature("extra-next-calls")
-				pair.Trace = append(pair.Trace, fmt.Sprintf("after the end: Next(%d) = %s", arg, got))
+				if i < 12 || got.Kind != mon.KEnd {
+					pair.Trace = append(pair.Trace, fmt.Sprintf("after the end: Next(%d) = %s (further call %d)", arg, got, i+1))
+				}
 				var diff string
 				switch {
 				case got.Kind != mon.KEnd:
@@ -133,7 +155,7 @@ func (p c12) Run(c *core.Ctx) {
 				case pair.Rec != nil && (pair.Rec.Writes != writesBefore || pair.Rec.Clears != clearsBefore):
 					diff = fmt.Sprintf("Next(%d) after the end wrote to the variable store", arg)
 				}
-				if diff == "" {
+				if diff == "" && (i < 12 || i == extra-1) {
 					have := map[string]model.Val{}
 					for k, v := range stateBefore {
 						v := v
@@ -182,6 +204,123 @@ func (p c12) Run(c *core.Ctx) {
 				c.Sample(map[string]any{"readers": scripts, "choices": pr.choices, "trace": pair.Trace})
 			}
 		})
+}
+
+// hostPanics: a host function panics (with a string, a number, a struct or an error value) in the middle of a
+// node. Nothing is predicted about that call - the panic may propagate to the host, or come back as an error -
+// but IF Next reports the end, the end is absorbing like any other.
+func (p c12) hostPanics(c *core.Ctx) {
+	r := c.R
+	use := r.Pick("{boom()} mid", "<<call boom()>>", "<<set $x to boom()>>", "<<if boom()>>\nx\n<<endif>>", "<<act {boom()}>>")
+	script := "title: Start\n---\nfirst\n" + use + "\n<<set $leak to 1>>\nafter {p(1, 2)}\n<<act leaked>>\n===\n"
+	rec := mon.NewRecStorer()
+	rr, err, pan := mon.Create(rec, "", []string{script})
+	if err != nil || pan != "" {
+		c.Violate("a script that calls a host function failed to load", map[string]any{"readers": []string{script}, "error": fmt.Sprint(err), "panic": pan})
+		return
+	}
+	log := &mon.HostLog{}
+	rr.Install(mon.FlowFuncs(log), mon.FlowCmds(log))
+	var what any
+	switch r.Intn(4) {
+	case 0:
+		what = "the save file is corrupt"
+	case 1:
+		what = 42
+	case 2:
+		what = struct{ Code int }{7}
+	default:
+		what = fmt.Errorf("an error value")
+	}
+	rr.DR.AddFunction("boom", func([]*variable.Value) (*variable.Value, error) { panic(what) })
+	var trace []string
+	o := rr.Once(0)
+	trace = append(trace, o.String())
+	if o.Kind != mon.KLine {
+		c.Violate("the first line was not shown", map[string]any{"readers": []string{script}, "trace": trace})
+		return
+	}
+	o = rr.Once(0)
+	trace = append(trace, o.String())
+	c.Feature("host-function-panicked:" + o.Kind.String())
+	if o.Kind != mon.KEnd {
+		return // the panic reached the host, or came back as an error: nothing more to judge here
+	}
+	for i := 0; i < 10; i++ {
+		arg := extraArgs[r.Intn(len(extraArgs))]
+		o := rr.Once(arg)
+		trace = append(trace, fmt.Sprintf("after the end: Next(%d) = %s", arg, o))
+		if o.Kind != mon.KEnd || len(log.E) > 0 || rec.Writes > 0 {
+			c.Violate("the end of the dialogue is not absorbing (the end was reported by the call in which a host function panicked)", map[string]any{
+				"readers": []string{script}, "panic_value": fmt.Sprintf("%T %v", what, what), "trace": trace, "host_events": log.E, "store_writes": rec.Writes})
+			return
+		}
+	}
+}
+
+// deepStop: a <<stop>> inside 7-14 nested blocks (if bodies and chosen option bodies in turn), with a line after
+// every block; after the end, 12 further calls.
+func (p c12) deepStop(c *core.Ctx) {
+	r := c.R
+	depth := r.Range(7, 14)
+	var b strings.Builder
+	b.WriteString("title: Start\n---\nfirst\n")
+	ind := ""
+	opts := 0
+	kinds := make([]bool, depth)
+	for d := 0; d < depth; d++ {
+		kinds[d] = r.Bool()
+		if kinds[d] {
+			b.WriteString(ind + "-> go\n")
+			opts++
+		} else {
+			b.WriteString(ind + "<<if true>>\n")
+		}
+		ind += "    "
+	}
+	b.WriteString(ind + "deepest\n" + ind + "<<stop>>\n" + ind + "never\n")
+	for d := depth - 1; d >= 0; d-- {
+		ind = ind[4:]
+		if !kinds[d] {
+			b.WriteString(ind + "<<endif>>\n")
+		}
+		b.WriteString(ind + "never\n")
+	}
+	b.WriteString("===\ntitle: Other\n---\nnever\n===\n")
+	script := b.String()
+	rr, err, pan := mon.Create(nil, "", []string{script})
+	if err != nil || pan != "" {
+		c.Violate("a script with a deeply nested stop failed to load", map[string]any{"readers": []string{script}, "error": fmt.Sprint(err), "panic": pan})
+		return
+	}
+	var trace []string
+	ended := false
+	for i := 0; i < opts+4 && !ended; i++ {
+		o := rr.Next(0)
+		trace = append(trace, o.String())
+		switch {
+		case o.Kind == mon.KEnd:
+			ended = true
+		case o.Kind == mon.KLine && o.Text == "never", o.Kind == mon.KErr, o.Kind == mon.KPanic:
+			c.Violate("a <<stop>> nested "+fmt.Sprint(depth)+" blocks deep did not end the dialogue", map[string]any{"readers": []string{script}, "trace": trace})
+			return
+		}
+	}
+	if !ended {
+		c.Violate("a <<stop>> nested "+fmt.Sprint(depth)+" blocks deep did not end the dialogue", map[string]any{"readers": []string{script}, "trace": trace})
+		return
+	}
+	for i := 0; i < 12; i++ {
+		arg := extraArgs[r.Intn(len(extraArgs))]
+		o := rr.Once(arg)
+		c.Feature("extra-next-calls")
+		trace = append(trace, fmt.Sprintf("after the end: Next(%d) = %s", arg, o))
+		if o.Kind != mon.KEnd {
+			c.Violate(fmt.Sprintf("the end of the dialogue is not absorbing (stop nested %d blocks deep): Next(%d) after the end returned %s", depth, arg, o), map[string]any{"readers": []string{script}, "trace": trace})
+			return
+		}
+	}
+	c.Feature("stops-nested-7-to-14-blocks-deep")
 }
 
 // stopWithWords covers ends reported by a stop command written with extra words or
